@@ -397,12 +397,12 @@ func (e *Exec) execRange(s *ast.RangeStmt, label string, st *State, ctx *Ctx, k 
 	exit.path = append(exit.path, fmt.Sprintf("L%sx", sanitize(li.key)))
 	switch kind {
 	case rkMap:
-		exit.pc = append(exit.pc, "(forall ((j String)) (! (=> (not (= (select (mapOf "+coll+") j) VAbsent)) (select "+visited+" j)) :pattern ((select (mapOf "+coll+") j))))")
+		exit.pc = append(exit.pc, "(forall ((j String)) (=> (not (= (select (mapOf "+coll+") j) VAbsent)) (select "+visited+" j)))")
 	case rkRMap:
-		exit.pc = append(exit.pc, "(forall ((j String)) (! (=> (not (= (select "+coll+" j) 0)) (select "+visited+" j)) :pattern ((select "+coll+" j))))")
+		exit.pc = append(exit.pc, "(forall ((j String)) (=> (not (= (select "+coll+" j) 0)) (select "+visited+" j)))")
 	case rkSortedMap:
 		exit.pc = append(exit.pc, "(= "+rest+" SNil)", "(= "+done+" "+seq+")",
-			"(forall ((j String)) (! (=> (not (= (select (mapOf "+coll+") j) VAbsent)) (select "+visited+" j)) :pattern ((select (mapOf "+coll+") j))))")
+			"(forall ((j String)) (=> (not (= (select (mapOf "+coll+") j) VAbsent)) (select "+visited+" j)))")
 	case rkList, rkSList, rkRList:
 		exit.pc = append(exit.pc, "(= "+rest+" "+nilc+")", "(= "+done+" "+seq+")")
 	case rkInt:
@@ -482,7 +482,7 @@ func lexLess(a, b []string) string {
 	for i := range a {
 		var conj []string
 		for j := 0; j < i; j++ {
-			conj = append(conj, "(= "+a[j]+" "+b[j]+")")
+			conj = append(conj, "(<= "+a[j]+" "+b[j]+")")
 		}
 		conj = append(conj, "(< "+a[i]+" "+b[i]+")", "(>= "+b[i]+" 0)")
 		alts = append(alts, "(and "+strings.Join(conj, " ")+")")
